@@ -197,7 +197,9 @@ impl RawArgs {
     /// Advance the cursor, returning a raw argument value.
     pub fn next_os(&self, cursor: &mut ArgCursor) -> Option<&OsStr> {
         let next = self.items.get(cursor.cursor).map(|s| s.as_os_str());
-        cursor.cursor = cursor.cursor.saturating_add(1);
+        if next.is_some() {
+            cursor.cursor += 1;
+        }
         next
     }
 
